@@ -183,8 +183,28 @@ DRAWABLE_CLEAR = "draw_target::Drawable::<'_>::clear"
 PDT_DRAWABLE = "draw_target::ProgressDrawTarget::drawable"
 
 
+ROLE_FINDERS = {}
+
+
+def _role_format_state(crate):
+    """The renderer of a bar line, whatever it is called today: the one non-closure method of ProgressStyle that dispatches on
+    `TemplatePart` and hands lines to `push_line` (a renamed / re-parameterised `format_state`)."""
+    out = []
+    for n, b in sorted(crate.bodies.items()):
+        if b.kind == "Closure" or not b.impl or (b.impl.get("self_head") or "") != "style::ProgressStyle":
+            continue
+        if any(head_of_type(pl.get("ty", "")) == "style::TemplatePart" for sb, t, pl, d in discr_switches(b)) and b.calls(r"style::ProgressStyle::push_line"):
+            out.append(b)
+    return out
+
+
+ROLE_FINDERS[r"style::ProgressStyle::format_state"] = _role_format_state
+
+
 def find_one(ctx, crate, rule, pat, what=None):
     bs = crate.find(pat)
+    if not bs and pat in ROLE_FINDERS:
+        bs = ROLE_FINDERS[pat](crate)
     if len(bs) != 1:
         ctx.lost(rule, crate.config, "expected exactly one body matching %s (%s), found %d" % (pat, what or "anchor", len(bs)))
         return None
